@@ -62,6 +62,10 @@ def run_case(case):
             keys += 1
         res["counts"]["cons:%s/%s" % (st.cons or "-", st.role)] = res["counts"].get("cons:%s/%s" % (st.cons or "-", st.role), 0) + 1
         exp_text = lines[last - 1]
+        if (st.uid + case["seed"]) % 9 == 0:
+            fs, info = util.block_cosim(src, std=std, ignore_comments=not keep, case=case)
+            res["findings"] += fs
+            res["counts"]["block-cosim"] = res["counts"].get("block-cosim", 0) + 1
         bad = None
         if o2.kind != "syntax":
             bad = ("accepted" if o2.kind == "tree" else util.outcome_signature(o2),
